@@ -341,17 +341,6 @@ def judge_load(c, r):
     return viol, dis, hang
 
 
-KNOWN_F50 = "c14:recovery-format_signature-kwarg-named-func"
-
-
-def known_key(c, text):
-    """F50: only a cached function with a parameter named `func`, called BY KEYWORD, whose recovery raises TypeError"""
-    if c.get("kind") == "memory" and c.get("sig") and "func" in c["sig"] and c.get("callstyle") == "kw" \
-            and "the cached call gave R:TypeError" in text:
-        return KNOWN_F50
-    return None
-
-
 def judge_memory(c, r):
     viol, hang = [], []
     for x in r["results"]:
@@ -586,13 +575,6 @@ def run(ctx):
             ctx.note("inconclusive: %s -- returned when retried with a 30 s limit" % what)
     for what, c in confirmed[:3]:
         ctx.violation("hang: " + what, {"kind": "oracle", "case": c}, True)
-    known_hits = [(w, c) for w, c in viol if known_key(c, w)]
-    viol = [(w, c) for w, c in viol if not known_key(c, w)]
-    for what, c in known_hits[:1]:
-        ctx.violation(what, {"kind": "oracle", "case": c}, True, finding_key=known_key(c, what))
-    if not known_hits:
-        # the witness of the known finding no longer fails: the finding is stale
-        ctx.note("known finding F50 did not reproduce in this run (fixed upstream?)")
     for what, c in viol[:3]:
         ctx.violation(what, {"kind": "oracle", "case": c}, True)
     if dis and not viol and not confirmed:
